@@ -388,6 +388,42 @@ def resumption_rules(chk):
                           % (e.word, e.pc, lo, hi), key='%s len' % R)
 
 
+def session_invalidation(chk):
+    """RFC 5246 7.2.2 / F.1.4: a connection that ends with a fatal error invalidates its session -- it must not be offered for
+    resumption.  Here the client stores the server-chosen session ID, version and suite as soon as it parses the ServerHello, i.e.
+    before the server is authenticated and before a master secret exists, so a handshake that then fails leaves a "session" whose
+    ID the peer chose and whose master secret is stale (all-zero in a fresh context).  Necessary condition decided here: the single
+    funnel of all failures, br_ssl_engine_fail(), clears session.session_id_len whenever it records a non-zero error."""
+    from ..oblig import Var, FieldLoad
+    R = 'failure-invalidates-session'
+    s = 'src/ssl/ssl_engine.c'
+    U = oblig.funit(s)
+    L = irf.Layouts(U.unit)
+    o_len = L.field('br_ssl_engine_context', 'session.session_id_len')[0]
+    o_io = L.field('br_ssl_engine_context', 'iomode')[0]
+    cv = build.const_values(['BR_IO_INOUT'])
+
+    def pred(F, i):
+        if i['op'] != 'store':
+            return False
+        b, o = F.addr_of(i['ops'][1])
+        return b == {'k': 'a', 'v': 0} and o == o_len and i['ops'][0]['k'] == 'c' and i['ops'][0]['v'] == 0
+    st0 = E(fold.expect_on_all_paths_from_entry, 'session.session_id_len := 0 on every path', pred, 'a store of 0 to session.session_id_len')
+    oblig.run_obligations(chk, [
+        Ob(s, 'br_ssl_engine_fail', Var('err', 'param'), ('assume', 'ne', 0), st0, None,
+           'an engine that records a non-zero error must forget the session ID: a later br_ssl_client_reset(.., resume = 1) would otherwise offer an ID chosen by an '
+           'unauthenticated peer and resume it under a master secret that was never negotiated', rule=R,
+           extra_hyps=[(FieldLoad(0, o_io, 'iomode'), ('pin', cv['BR_IO_INOUT']))]),
+    ])
+    # orderly closure (error code 0) must keep the session resumable
+    F = U.optimise('br_ssl_engine_fail', [dict(kind='assume', n=U.func('br_ssl_engine_fail').f['params'][1]['n'], ty='i32', pred='eq', value=0, param=True)], ())
+    inst = 'br_ssl_engine_fail(0) (orderly closure) keeps the session ID'
+    if any(pred(F, i) for i in fold._reach_insts(F)):
+        chk.violation(R, inst, s, 'the session is invalidated on orderly closure too: resumption can never happen', key='%s closure' % R)
+    else:
+        chk.ok(R, inst, s)
+
+
 def run(tier):
     chk = report.Check('C03', tier,
                        'Static necessary conditions: in both handshake interpreters every store that sets bit 0 of application_data is preceded, on '
@@ -407,5 +443,6 @@ def run(tier):
     c_helpers(chk)
     key_usage_rules(chk)
     resumption_rules(chk)
+    session_invalidation(chk)
     chk.floor('rule instances', len(chk.obls), 30)
     return chk.finish()
